@@ -1,7 +1,12 @@
 package verifdemo
 
 import (
+	"context"
 	"testing"
+
+	"github.com/aws/aws-sdk-go-v2/service/dynamodb"
+	v2types "github.com/aws/aws-sdk-go-v2/service/dynamodb/types"
+	v2 "github.com/truora/minidyn/aws-v2/client"
 
 	v1sdk "github.com/aws/aws-sdk-go/service/dynamodb"
 	v1aws "github.com/aws/aws-sdk-go/aws"
@@ -89,5 +94,42 @@ func TestC18DescribeTableIndexNames(t *testing.T) {
 	}
 	if len(seen) != 3 {
 		t.Errorf("DescribeTable of a table with indexes idx_a, idx_b, idx_c reports the names %v", seen)
+	}
+}
+
+// C04/C13: an empty primary key value is rejected; before the fix the item was stored under the key ""
+// and a paginated read that stopped on it never ended (resuming from "" restarts the read).
+func TestC13EmptyKeyValueRejected(t *testing.T) {
+	ctx := context.Background()
+	c := v2.NewClient()
+	if err := v2.AddTable(ctx, c, "tbl", "h", ""); err != nil {
+		t.Fatal(err)
+	}
+	tbl := "tbl"
+	_, err := c.PutItem(ctx, &dynamodb.PutItemInput{TableName: &tbl, Item: map[string]v2types.AttributeValue{"h": &v2types.AttributeValueMemberS{Value: ""}}})
+	if err == nil {
+		t.Fatalf("PutItem with an empty hash key value was accepted")
+	}
+	for _, h := range []string{"a", "b"} {
+		if _, err := c.PutItem(ctx, &dynamodb.PutItemInput{TableName: &tbl, Item: map[string]v2types.AttributeValue{"h": &v2types.AttributeValueMemberS{Value: h}}}); err != nil {
+			t.Fatal(err)
+		}
+	}
+	lim := int32(1)
+	var esk map[string]v2types.AttributeValue
+	pages := 0
+	for {
+		o, err := c.Scan(ctx, &dynamodb.ScanInput{TableName: &tbl, Limit: &lim, ExclusiveStartKey: esk})
+		if err != nil {
+			t.Fatal(err)
+		}
+		pages++
+		if len(o.LastEvaluatedKey) == 0 {
+			break
+		}
+		if pages > 10 {
+			t.Fatalf("the paginated scan does not end")
+		}
+		esk = o.LastEvaluatedKey
 	}
 }
